@@ -33,7 +33,7 @@ func init() {
 func runC05(c *an.Ctx) {
 	c.Floor("C05-R1", 3)
 	c.Floor("C05-R2", 3)
-	c.Floor("C05-R3", 1)
+	c.Floor("C05-R3", 8)
 	c.Floor("C05-R4", 5)
 	c.Floor("C05-R5", 2)
 
@@ -318,6 +318,9 @@ func runC05(c *an.Ctx) {
 		},
 	})
 
+	// the ECS cache key separates subnets (address bytes and length) and opt-out entries
+	ecsKeyDeps(c, "C05-R3")
+
 	// ---- R4 echo + setECS
 	decide(c, "C05-R4", "ecscache.writeCachedResponse", an.DecideCfg{
 		Dom: an.Domain{"p4": an.NilOrNot, "seterr": an.Bools},
@@ -456,50 +459,7 @@ func runC05(c *an.Ctx) {
 	ecsStoreOrder(c, "C05-R4")
 
 	// ---- R5 location / FORMERR
-	decide(c, "C05-R5", "dnssvc/internal/ratelimitmw.(*Middleware).location", an.DecideCfg{
-		Dom: an.Domain{"ecserr": an.Bools, "(ecssubnet == zero:net/netip.Prefix)": an.Bools},
-		OnCall: func(it *an.Interp, name string, args []an.AV) (an.AV, bool) {
-			switch {
-			case name == "(*dnssvc/internal/ratelimitmw.Middleware).locationData":
-				return an.NonNil("loc(" + args[2].String() + ")"), true
-			case name == "dnsmsg.ECSFromMsg":
-				if args[0].String() != "p2" {
-					return an.Sym("ECS of another message"), true
-				}
-				if it.Feature("ecserr").IsTrue() {
-					return an.AV{Kind: an.KTuple, Tup: []an.AV{an.Sym("ecssubnet"), an.Sym("scope"), an.NonNil("ecsErr")}}, true
-				}
-				return an.AV{Kind: an.KTuple, Tup: []an.AV{an.Sym("ecssubnet"), an.Sym("scope"), an.Nil()}}, true
-			case name == "fmt.Errorf":
-				return an.NonNil("wrapped"), true
-			case name == "(net/netip.Prefix).Addr":
-				return an.Sym("addr(" + args[0].String() + ")"), true
-			}
-			return an.AV{}, false
-		},
-		Expect: func(f an.Features, o an.AOutcome) string {
-			if o.Exit != "return" || len(o.Ret) != 3 {
-				return "a (loc, ecs, err) result"
-			}
-			if f.B("ecserr") {
-				if o.Ret[1].Kind == an.KNil && o.Ret[2].Kind != an.KNil {
-					return ""
-				}
-				return "an error and no ECS for a malformed option"
-			}
-			wantECS := !f.B("(ecssubnet == zero:net/netip.Prefix)")
-			if wantECS != (o.Ret[1].Kind != an.KNil) || o.Ret[2].Kind != an.KNil {
-				return fmt.Sprintf("ECS record present=%v (kept for every decoded option, including a /0 opt-out; absent only when the request has none)", wantECS)
-			}
-			if wantECS {
-				k := strings.TrimPrefix(o.Ret[1].String(), "&")
-				if o.Mem[k+".Subnet"].String() != "ecssubnet" {
-					return "the record to carry the client's subnet"
-				}
-			}
-			return ""
-		},
-	})
+	sharedLocation(c, "C05-R5")
 	decide(c, "C05-R5", "dnssvc/internal/ratelimitmw.(*Middleware).processLocationErr", an.DecideCfg{
 		Dom: an.Domain{"isbadecs": an.Bools},
 		OnCall: func(it *an.Interp, name string, args []an.AV) (an.AV, bool) {
